@@ -170,9 +170,14 @@ def _decoders(ctx):
             for regime in ("sum_product", "min_sum"):
                 cases.append(("polar_sc_%s_%d" % (regime, nn), pe, D.SuccessiveCancellationDecoder(pe, regime=regime)))
                 cases.append(("polar_bp_%s_%d" % (regime, nn), pe, D.BeliefPropagationPolarDecoder(pe, regime=regime, bp_iters=8)))
+    # Reed-Muller codes of high order (check-sum groups of 16 / 8 positions): products / sums over large groups at weak LLRs
+    for (r_, m_) in ((4, 5), (3, 5), (3, 4)):
+        rmx = E.ReedMullerCodeEncoder(r_, m_)
+        cases.append(("soft_rm_%d_%d" % (r_, m_), rmx, D.ReedMullerDecoder(rmx, input_type="soft")))
     for name, enc, dec in cases:
         k = enc.code_dimension
-        for bits in itertools.product([0, 1], repeat=k):
+        msgs_iter = itertools.product([0, 1], repeat=k) if k <= 8 else [tuple(rng.getrandbits(1) for _ in range(k)) for _ in range(3)] + [tuple([1] * k)]
+        for bits in msgs_iter:
             m = torch.tensor([bits], dtype=torch.float32)
             cw = enc(m)
             for a in (1e-3, 0.5, 4.0, 12.0, 50.0, 1e3):
